@@ -189,6 +189,29 @@ def body(case, stats):
                       sample={"order": order, **S.summarize(spec)})
 
 
+def body_history(ops, stats):
+    """Aggregates of a system reached through an edit history."""
+    from vlib import machine as M
+    from vlib.runner import Stats
+
+    d = M.replay_ops(ops, set(), Stats())
+    if not d.in_sync():
+        stats.cls("history_out_of_model")
+        return
+    spec = {"name": "Sys", "phases": d.model["phases"], "nodes": M.topo_nodes(d.model)}
+    if any(n.get("pconf") for n in spec["nodes"]) and not spec["phases"]:
+        stats.cls("history_pconf_without_phases")
+    try:
+        df = B.solve(d.sys, energy=True)
+    except (ValueError, RuntimeError):
+        stats.cls("not_solved")
+        return
+    nt = check_aggregates(spec, Table(df), True, stats, pre="history.")
+    stats.cls("history_checked")
+    if len(S.sources(spec)) >= 2 and len(spec["nodes"]) >= 4:
+        stats.nontriv(jhash(ops), sample=[M.op_text(o) for o in ops][:10])
+
+
 def _reduce(case):
     for c in S.reductions(case["spec"]):
         yield {"spec": c, "order": list(range(len(c["nodes"])))}
@@ -199,7 +222,10 @@ def streams(tier, avoid):
     mn = 14 if big else 10
     o1 = G.Opts(max_nodes=mn, min_nodes=4, avoid=avoid, zero_source=True)
     o2 = G.Opts(max_nodes=mn, min_nodes=4, phases=True, avoid=avoid, zero_source=True)
+    from vlib.props.c12 import histories
     return [
+        Stream("after_history", body_history, strategy=histories(),
+               n={"quick": 150, "thorough": 1500}),
         Stream("static", body, strategy=G.system_with_order(o1),
                n={"quick": 600, "thorough": 5000}, reduce=_reduce),
         Stream("phases", body, strategy=G.system_with_order(o2),
